@@ -1,7 +1,9 @@
 def plan(tier):
     q = tier == "quick"
     return {
-        "mc": [{"module": "PoaMC", "cfg": "PoaMC.cfg" if q else "PoaMC_thorough.cfg", "timeout": 2400}],
+        "mc": [{"module": "PoaMC", "cfg": "PoaMC.cfg" if q else "PoaMC_thorough.cfg", "timeout": 2400},
+               {"module": "PoaGraphMC", "cfg": "PoaGraphMC.cfg" if q else "PoaGraphMC_thorough.cfg",
+                "timeout": 2400, "workers": 8}],
         "families": [{"fam": "poa", "trace": "PoaTrace"}],
         "required_obligations": ["linear_exhaustive", "gap_zero", "length1_reference_edgeless", "identical_copies",
                                  "unrelated_sequences"],
@@ -11,7 +13,9 @@ def plan(tier):
                 "unrelated value); growth histories of 1-5 additions (identical copies, mutated copies, unrelated "
                 "sequences, length-1 references) with the graph and the consensus logged after every addition",
         "bounds": {"mc": "references/queries over 2 symbols up to length 4 (5), 5 scoring schemes: DP row machine "
-                         "with the code's traceback tie-breaks vs brute force over all alignments",
+                         "with the code's traceback tie-breaks vs brute force over all alignments; graph-growth machine "
+                         "(add_alignment transcribed) under EVERY structurally possible alignment of queries <=2 "
+                         "to graphs grown from references <=2(3) in <=2(3) additions: DAG + growth clauses",
                    "impl": "|ref|,|query| <= 30; graphs <= ~80 nodes"},
         "assumptions": ["the operations accessor hook only reads",
                         "symbols are projected to alphabet indices by the harness; the substitution closure reads "
